@@ -5,7 +5,9 @@
 package c17
 
 import (
+	"errors"
 	"io/fs"
+	"os"
 
 	"github.com/avfs/avfs"
 	"github.com/avfs/avfs/vfs/memfs"
@@ -19,6 +21,7 @@ func init() {
 	sym.Register("c17.HConfig", HConfig)
 	sym.Register("c17.HLockstep", HLockstep)
 	sym.Register("c17.HVolumes", HVolumes)
+	sym.Register("c17.HVolumeIso", HVolumeIso)
 }
 
 func newTyped(kind int, t avfs.OSType) avfs.VFS {
@@ -133,6 +136,40 @@ type scal struct {
 }
 
 func do(v avfs.VFS, t string, p, q string, s scal) bool {
+	return doErr(v, t, p, q, s) == nil
+}
+
+// errno unwraps err to the error value of the file system's error table.
+func errno(err error) error {
+	for err != nil {
+		switch e := err.(type) {
+		case *fs.PathError:
+			err = e.Err
+		case *os.LinkError:
+			err = e.Err
+		default:
+			return err
+		}
+	}
+	return nil
+}
+
+// class is the portable class of an error.
+func class(err error) string {
+	switch {
+	case err == nil:
+		return "ok"
+	case errors.Is(err, fs.ErrNotExist):
+		return "not-exist"
+	case errors.Is(err, fs.ErrExist):
+		return "exist"
+	case errors.Is(err, fs.ErrPermission):
+		return "permission"
+	}
+	return "other"
+}
+
+func doErr(v avfs.VFS, t string, p, q string, s scal) error {
 	var err error
 	switch t {
 	case "Mkdir":
@@ -165,7 +202,7 @@ func do(v avfs.VFS, t string, p, q string, s scal) bool {
 	case "ReadFile":
 		_, err = v.ReadFile(p)
 	}
-	return err == nil
+	return err
 }
 
 // entry renders what is observable at a path, OS-independent parts only.
@@ -221,11 +258,26 @@ func HLockstep(kind, s, t int) {
 	sym.Label(label)
 	sym.Reach("lockstep")
 	var okL, okW bool
+	var eL, eW error
 	res := sym.Outcome(func() {
-		okL = do(lin, name, pth(lin, universe[pi]), pth(lin, universe[qi]), sc)
-		okW = do(win, name, pth(win, universe[pi]), pth(win, universe[qi]), sc)
+		eL = doErr(lin, name, pth(lin, universe[pi]), pth(lin, universe[qi]), sc)
+		eW = doErr(win, name, pth(win, universe[pi]), pth(win, universe[qi]), sc)
+		okL, okW = eL == nil, eW == nil
 	})
 	sym.Assert(!res.Panicked, "C17|"+label+"|panic|"+res.Class+"|"+res.Site)
+	// error values come from the table of the emulated OS (which value is not
+	// fixed by the property: the two systems legitimately classify some failures
+	// differently, e.g. ENOTDIR vs "path not found")
+	if eW != nil {
+		_, isWin := errno(eW).(avfs.WindowsError)
+		sym.Assert(isWin, "C17|"+label+"|windows-typed-instance-returns-a-non-Windows-error-value")
+	}
+	if eL != nil {
+		_, isLin := errno(eL).(avfs.LinuxError)
+		sym.Assert(isLin, "C17|"+label+"|linux-typed-instance-returns-a-non-Linux-error-value")
+	}
+	sym.Observe("linux-class", class(eL))
+	sym.Observe("windows-class", class(eW))
 	sym.Observe("linux", okL)
 	sym.Observe("windows", okW)
 	sym.Assert(okL == okW, "C17|"+label+"|success-differs|linux-"+b2s(okL)+"|windows-"+b2s(okW))
@@ -307,4 +359,57 @@ func HVolumes(L int) {
 			sym.Assert(err == nil, "C17|memfs|volume-root-unusable")
 		}
 	}
+}
+
+var isoTargets = []string{"a", `..\w\a`, `\w\a`, "V:\\w\\a", `a\..\a`}
+var isoQueries = [][]string{{"w", "l"}, {"w", "l", "f"}, {"w", "l", "n"}, {"w", "a", "f"}}
+var isoOps = []string{"Stat", "ReadFile", "WriteFile", "Mkdir", "ReadDir", "Remove", "Truncate"}
+
+// HVolumeIso: a volume added with VolumeAdd behaves as the default volume: the
+// same tree (with a symbolic link whose target is relative, parent-relative,
+// rooted or absolute) is built on C: and on D:, one call is made through it on
+// each, and outcome, error value and resulting entries are the same.
+func HVolumeIso() {
+	v := memfs.NewWithOptions(&memfs.Options{OSType: avfs.OsWindows})
+	if v.OSType() != avfs.OsWindows {
+		sym.Cut("a Windows-typed instance cannot be constructed")
+	}
+	hx.Must(v.VolumeAdd("D:"))
+	ti := sym.Choose("target", len(isoTargets))
+	qi := sym.Choose("query", len(isoQueries))
+	opn := isoOps[sym.Choose("op", len(isoOps))]
+	data := sym.Bytes("data", 1)
+	label := "memfs|volume-isomorphism|" + opn
+	sym.Label(label)
+	sym.Reach("volume-iso")
+	on := func(vol string, comps ...string) string {
+		p := vol + `\`
+		for _, c := range comps {
+			p = v.Join(p, c)
+		}
+		return p
+	}
+	var errs [2]error
+	var ents [2]string
+	for i, vol := range []string{"C:", "D:"} {
+		hx.Must(v.MkdirAll(on(vol, "w", "a"), 0o755))
+		hx.Must(v.WriteFile(on(vol, "w", "a", "f"), []byte("x"), 0o644))
+		t := isoTargets[ti]
+		if len(t) > 1 && t[0] == 'V' {
+			t = vol + t[2:]
+		}
+		hx.Must(v.Symlink(t, on(vol, "w", "l")))
+		q := on(vol, isoQueries[qi]...)
+		res := sym.Outcome(func() {
+			errs[i] = doErr(v, opn, q, "", scal{data: data, size: 0})
+		})
+		sym.Assert(!res.Panicked, "C17|"+label+"|panic|"+res.Class+"|"+res.Site)
+		for _, u := range [][]string{{"w"}, {"w", "a"}, {"w", "a", "f"}, {"w", "a", "n"}, {"w", "l"}} {
+			ents[i] += entry(v, on(vol, u...)) + ";"
+		}
+	}
+	sym.Observe("C", class(errs[0]))
+	sym.Observe("D", class(errs[1]))
+	sym.Assert((errs[0] == nil) == (errs[1] == nil) && errno(errs[0]) == errno(errs[1]), "C17|"+label+"|outcome-on-added-volume-differs-from-default-volume")
+	sym.Assert(ents[0] == ents[1], "C17|"+label+"|tree-on-added-volume-differs-from-default-volume")
 }
